@@ -272,21 +272,21 @@ def build_disc(c):
     if c["prior"] == "finite":
         grid = lsl.Var(np.asarray(c["grid"], dtype=np.float64), name="grid")
         prior = lsl.Dist(tfd.FiniteDiscrete, outcomes=grid, probs=lsl.Value(np.asarray(c["probs"], dtype=np.float64)))
-        z = lsl.Var(float(c["z0"]), prior, name="z")
+        z = lsl.param(float(c["z0"]), prior, name="z")
     else:
         prior = lsl.Dist(tfd.Bernoulli, probs=lsl.Value(float(c["probs"][1])))
-        z = lsl.Var(int(c["z0"]), prior, name="z")
+        z = lsl.param(int(c["z0"]), prior, name="z")
     items = [z]
     c0, c1, s, d0, d1 = c["c0"], c["c1"], c["s"], c["d0"], c["d1"]
     if c["ys"]:
         mu = lsl.Var(lsl.Calc(lambda z: c0 + c1 * z, z), name="mu")
         sig = lsl.Var(float(s) * 2.0, name="sig")     # run_disc hands a state with sig = s
-        items.append(lsl.Var(np.asarray(c["ys"], dtype=np.float64), lsl.Dist(tfd.Normal, loc=mu, scale=sig), name="y"))
+        items.append(lsl.obs(np.asarray(c["ys"], dtype=np.float64), lsl.Dist(tfd.Normal, loc=mu, scale=sig), name="y"))
     if c["ns"]:
         lam = lsl.Var(lsl.Calc(lambda z: jnp.exp(d0 + d1 * z), z), name="lam")
-        items.append(lsl.Var(np.asarray(c["ns"], dtype=np.float64), lsl.Dist(tfd.Poisson, rate=lam), name="n"))
+        items.append(lsl.obs(np.asarray(c["ns"], dtype=np.float64), lsl.Dist(tfd.Poisson, rate=lam), name="n"))
     if c.get("extra"):
-        items.append(lsl.Var(0.75, lsl.Dist(tfd.Normal, loc=0.0, scale=2.0), name="w"))
+        items.append(lsl.param(0.75, lsl.Dist(tfd.Normal, loc=0.0, scale=2.0), name="w"))
     return lsl.GraphBuilder(to_float32=False).add(*items).build_model()
 
 
@@ -510,7 +510,7 @@ def gen_tau2(rnd, idx, kt=None, bt=None, f32=None):
 
 
 DISC_STRATA = ["finite_both", "bern_normal", "finite_prior_only", "bern_out_rev", "finite_poisson", "finite_sub",
-               "bern_both", "finite_single"]
+               "bern_both", "finite_single", "finite_zero_prob"]
 
 
 def gen_probs(rnd, k):
@@ -532,7 +532,10 @@ def gen_disc(rnd, idx, st=None):
         k = 1 if st == "finite_single" else rnd.randint(2, 5)
         grid = sorted(rnd.sample([x / 2 for x in range(-4, 9)], k))
         c.update(prior="finite", grid=grid, probs=gen_probs(rnd, k))
-        c["z0"] = rnd.choice(grid)
+        if st == "finite_zero_prob":     # an outcome of prior probability 0: logit -inf, never drawn
+            c["probs"] = gen_probs(rnd, k - 1) + [0.0] if k > 2 else [1.0, 0.0]
+            rnd.shuffle(c["probs"])
+        c["z0"] = rnd.choice([x for x, pr in zip(grid, c["probs"]) if pr > 0])
         if st == "finite_sub":
             sub = grid[:]
             rnd.shuffle(sub)
@@ -544,7 +547,7 @@ def gen_disc(rnd, idx, st=None):
         c["z0"] = rnd.choice([0, 1])
         if st == "bern_out_rev":
             c["outcomes_arg"] = [1, 0]
-    if st in ("finite_both", "bern_normal", "finite_sub", "bern_both", "bern_out_rev", "finite_single"):
+    if st in ("finite_both", "bern_normal", "finite_sub", "bern_both", "bern_out_rev", "finite_single", "finite_zero_prob"):
         c["ys"] = [dy(rnd, -2, 2, 4) for _ in range(rnd.randint(1, 3))]
     if st in ("finite_both", "finite_poisson", "bern_both", "finite_sub"):
         c["ns"] = [float(rnd.randint(0, 5)) for _ in range(rnd.randint(1, 3))]
@@ -591,7 +594,7 @@ def run_case(c, heavy=False):
 
 def generate(ctx):
     rnd = random.Random(ctx.seed)
-    n_tau2, n_disc = (32, 32) if ctx.quick else (320, 320)
+    n_tau2, n_disc = (32, 32) if ctx.quick else (200, 200)
     heavy_every = 8 if ctx.quick else 5
     cases = [dict(c) for c in corpus_cases()]
     ncorpus = len(cases)
